@@ -29,8 +29,8 @@ var (
 	tUnit = &gty{k: "unit"}
 )
 
-func tTup(a, b *gty) *gty        { return &gty{k: "tup", a: a, b: b} }
-func tSlice(a *gty) *gty         { return &gty{k: "slice", a: a} }
+func tTup(a, b *gty) *gty         { return &gty{k: "tup", a: a, b: b} }
+func tSlice(a *gty) *gty          { return &gty{k: "slice", a: a} }
 func tFun(ps []*gty, r *gty) *gty { return &gty{k: "fun", ps: ps, ret: r} }
 
 func (t *gty) eq(u *gty) bool {
@@ -300,10 +300,13 @@ func (f *gfunc) sx() string {
 // ---------- layout
 
 type glayout struct {
-	r       *rand.Rand
-	plain   bool // canonical layout: indent 2, no decoration, multi-line forms
-	comment int
+	r         *rand.Rand
+	plain     bool // canonical layout: indent 2, no decoration, multi-line forms
+	comment   int
+	minParens bool // binary operands carry only the parentheses the operator table requires
 }
+
+var gOpRank = map[string]int{"&&": 2, "||": 2, "<": 2, ">": 2, "<=": 2, ">=": 2, "=": 3, "<>": 3, "+": 4, "-": 4, "*": 5}
 
 func (l *glayout) indentDelta() int {
 	if l.plain {
@@ -361,7 +364,7 @@ func gIsAtomic(e *gnode) bool {
 	case "int":
 		return e.n >= 0
 	case "slice":
-		return len(e.kids) > 0
+		return len(e.kids) > 0 && !gTiny // tinyfo: a slice literal is a term, not an atom
 	case "str", "bool", "unit", "var", "rec", "interp", "tup":
 		return true
 	case "fld":
@@ -393,6 +396,26 @@ func (e *gnode) inline(l *glayout) string {
 	case "var":
 		return e.s
 	case "bin":
+		if l.minParens {
+			// only the parentheses the operator table requires (ranks as published; equal ranks
+			// associate to the left; application binds tighter than every operator)
+			my := gOpRank[e.s]
+			opnd := func(k *gnode, right bool) string {
+				switch k.op {
+				case "bin":
+					r := gOpRank[k.s]
+					if r > my || (r == my && !right) {
+						return k.inline(l)
+					}
+				case "call", "tr", "len", "fst", "snd", "sprintf1", "concat":
+					if len(k.kids) > 0 {
+						return k.inline(l)
+					}
+				}
+				return arg(k)
+			}
+			return opnd(e.kids[0], false) + " " + e.s + " " + opnd(e.kids[1], true)
+		}
 		return arg(e.kids[0]) + " " + e.s + " " + arg(e.kids[1])
 	case "not":
 		return "not " + arg(e.kids[0])
@@ -627,6 +650,12 @@ func (e *gnode) blockLines(l *glayout, ind string) string {
 				sb.WriteString("let (" + s.names[0] + ", " + s.names[1] + ") =")
 			}
 			switch {
+			case gTiny && s.e.isInlineable():
+				// tinyfo: the right-hand side starts on the line of the `let`
+				sb.WriteString(" " + s.e.inline(l) + l.eol())
+			case gTiny:
+				in2 := ind + strings.Repeat(" ", l.indentDelta())
+				sb.WriteString(" " + s.e.stmt(l, in2) + l.eol())
 			case s.e.op == "lam" && !s.e.kids[0].isInlineable():
 				// a local function with a block body
 				var ps []string
@@ -729,6 +758,9 @@ func (g *ggen) lit(t *gty) *gnode {
 		return &gnode{op: "tup", kids: []*gnode{g.lit(t.a), g.lit(t.b)}, t: t}
 	case "slice":
 		n := g.r.Intn(4)
+		if gTiny && n == 0 {
+			n = 1
+		}
 		e := &gnode{op: "slice", t: t}
 		for i := 0; i < n; i++ {
 			e.kids = append(e.kids, g.lit(t.a))
@@ -751,12 +783,19 @@ func (g *ggen) lit(t *gty) *gnode {
 		}
 		return e
 	case "fun":
-		return g.lambda(genv{}, t, 1)
+		return g.lambda(genv{funcs: gHelperFuncs()}, t, 1)
 	}
 	return &gnode{op: "unit", t: tUnit}
 }
 
 func (g *ggen) lambda(env genv, t *gty, d int) *gnode {
+	if gTiny {
+		// the tinyfo profile has no `fun`: every function value is a partial application
+		if e := g.partialOf(env, t); e != nil {
+			return e
+		}
+		panic("tiny profile: no partial application of type " + t.fo())
+	}
 	e := &gnode{op: "lam", t: t, fty: t.ps}
 	env2 := env
 	for _, p := range t.ps {
@@ -828,6 +867,9 @@ func (g *ggen) inline(env genv, t *gty, d int) *gnode {
 		switch g.r.Intn(9) {
 		case 0, 1:
 			op := []string{"+", "-", "*"}[g.r.Intn(3)]
+			if gTiny && op == "*" {
+				op = "-"
+			}
 			return &gnode{op: "bin", s: op, kids: []*gnode{g.inline(env, tInt, d-1), g.inline(env, tInt, d-1)}, t: t}
 		case 2:
 			g.hit("trace")
@@ -859,6 +901,9 @@ func (g *ggen) inline(env genv, t *gty, d int) *gnode {
 			g.hit("sprintf1")
 			return &gnode{op: "sprintf1", s: "<%d>", kids: []*gnode{g.inline(env, tInt, d-1)}, t: t}
 		case 3:
+			if gTiny {
+				break
+			}
 			// interpolation over variables in scope
 			e := &gnode{op: "interp", t: t}
 			for i := 0; i < 1+g.r.Intn(3); i++ {
@@ -912,6 +957,9 @@ func (g *ggen) inline(env genv, t *gty, d int) *gnode {
 				return &gnode{op: "map", kids: []*gnode{f, g.inline(env, tSlice(tInt), d-1)}, t: t}
 			}
 		case 1:
+			if gTiny && t.a.k != "int" && t.a.k != "str" {
+				break
+			}
 			g.hit("slice-filter")
 			f := g.funcValue(env, tFun([]*gty{t.a}, tBool), d-1)
 			return &gnode{op: "filter", kids: []*gnode{f, g.inline(env, t, d-1)}, t: t}
@@ -958,7 +1006,17 @@ func (g *ggen) funcValue(env genv, t *gty, d int) *gnode {
 	if len(vs) > 0 && g.r.Intn(3) == 0 {
 		return &gnode{op: "var", s: vs[g.r.Intn(len(vs))].name, t: t}
 	}
-	// partial application: f with params ps ++ t.ps returning t.ret
+	if g.r.Intn(3) != 0 {
+		if e := g.partialOf(env, t); e != nil {
+			return e
+		}
+	}
+	return g.lambda(env, t, d)
+}
+
+// partial application: f with params ps ++ t.ps returning t.ret, applied to effect-free arguments
+// (known finding D9); nil when no function in scope fits
+func (g *ggen) partialOf(env genv, t *gty) *gnode {
 	var cands []*gfunc
 	for _, f := range env.funcs {
 		k := len(f.ptys) - len(t.ps)
@@ -974,18 +1032,17 @@ func (g *ggen) funcValue(env genv, t *gty, d int) *gnode {
 			}
 		}
 	}
-	if len(cands) > 0 && g.r.Intn(3) != 0 {
-		f := cands[g.r.Intn(len(cands))]
-		k := len(f.ptys) - len(t.ps)
-		e := &gnode{op: "call", s: f.name, n: len(f.params), t: t}
-		for i := 0; i < k; i++ {
-			// arguments of a partial application are kept effect free (known finding D9)
-			e.kids = append(e.kids, g.pure(env, f.ptys[i]))
-		}
-		g.hit("partial-application")
-		return e
+	if len(cands) == 0 {
+		return nil
 	}
-	return g.lambda(env, t, d)
+	f := cands[g.r.Intn(len(cands))]
+	k := len(f.ptys) - len(t.ps)
+	e := &gnode{op: "call", s: f.name, n: len(f.params), t: t}
+	for i := 0; i < k; i++ {
+		e.kids = append(e.kids, g.pure(env, f.ptys[i]))
+	}
+	g.hit("partial-application")
+	return e
 }
 
 // effect-free expression: variable or literal
@@ -1051,6 +1108,9 @@ func (g *ggen) stmtExpr(env genv, t *gty, d int) *gnode {
 		g.hit("match-union")
 		return e
 	case 2: // match on a string
+		if gTiny {
+			break
+		}
 		e := &gnode{op: "matchs", t: t, kids: []*gnode{g.inline(env, tStr, 2)}}
 		used := map[string]bool{}
 		for i := 0; i < 1+g.r.Intn(3); i++ {
@@ -1225,7 +1285,7 @@ func (g *ggen) block(env genv, t *gty, d int) *gnode {
 			ft := tFun([]*gty{tInt}, []*gty{tInt, tStr, tBool}[g.r.Intn(3)])
 			f := g.fresh("lf")
 			lam := g.lambda(env, ft, 2)
-			if g.r.Intn(3) == 0 && d > 0 {
+			if g.r.Intn(3) == 0 && d > 0 && !gTiny {
 				// block body
 				env2 := env
 				for i, p := range lam.names {
@@ -1325,6 +1385,9 @@ func (g *ggen) program(name string) []*gfunc {
 // curried helpers available to every program (targets of partial application and pipes); they are
 // ordinary generated-language functions: rendered into the batch source and sent to the evaluator
 func gHelperFuncs() []*gfunc {
+	if gTiny {
+		return gTinyHelperFuncs()
+	}
 	v := func(n string, t *gty) *gnode { return &gnode{op: "var", s: n, t: t} }
 	blk := func(t *gty, stmts []*gstmt, fin *gnode) *gnode {
 		return &gnode{op: "block", t: t, stmts: stmts, kids: []*gnode{fin}}
